@@ -555,6 +555,7 @@ def seg_ops(state):
             ops.append(['q', who] + q)
     if len(state) == 1:
         ops.append(['reversed'])
+        ops.append(['copied'])
     return ops
 
 
@@ -635,7 +636,7 @@ def inspect_seg(cfg, spec_kind):
                 if not ok:
                     acc.violation('segment_query_differs_from_fresh',
                                   {'query': qn, 'kind': spec_kind, 'config': cfg_name(cfg),
-                                   'ops': seg_sig(hist, who), 'object': 'reversed_copy' if who else 'original'},
+                                   'ops': seg_sig(hist, who), 'object': ('shallow_copy' if any(o_[0] == 'copied' for o_ in hist) else 'reversed_copy') if who else 'original'},
                                   {'level': 'segment', 'config': cfg, 'kind': spec_kind, 'history': hist},
                                   observed=a, expected=b, detail='object %d after %s' % (who, hist))
                     break
@@ -658,6 +659,8 @@ def successors_seg(cfg, spec, label=None):
                 setattr(st[op[1]], op[2], ALT if op[3] == 'alt' else orig[op[2]])
             elif op[0] == 'reversed':
                 st.append(st[0].reversed())
+            elif op[0] == 'copied':
+                st.append(copy.copy(st[0]))        # a shallow copy: whatever mutable bookkeeping the segment carries is shared
             elif op[0] == 'q':
                 s = st[op[1]]
                 fresh = rebuild_by_value(s)
@@ -673,7 +676,7 @@ def successors_seg(cfg, spec, label=None):
                     acc.violation('segment_query_differs_from_fresh',
                                   {'query': 'transition_' + seg_sig([op], 0)[0], 'kind': label,
                                    'config': cfg_name(cfg), 'ops': seg_sig(hist, op[1]),
-                                   'object': 'reversed_copy' if op[1] else 'original'},
+                                   'object': ('shallow_copy' if any(o_[0] == 'copied' for o_ in hist) else 'reversed_copy') if op[1] else 'original'},
                                   {'level': 'segment', 'config': cfg, 'kind': label, 'history': hist + [op],
                                    'transition': True},
                                   observed=a, expected=b, detail='transition %s after %s' % (op, hist))
@@ -706,8 +709,15 @@ def run_hash_eq(acc):
             ('Line(2**53+1,1j)', Line(2 ** 53 + 1, 1j)), ('Line(2**53,1j)', Line(2 ** 53, 1j)), ('Line(2.0**53,1j)', Line(2.0 ** 53, 1j)),
             ('Q(2**53+1,0.5,1j)', QuadraticBezier(2 ** 53 + 1, 0.5, 1j)), ('Q(2**53,0.5,1j)', QuadraticBezier(2 ** 53, 0.5, 1j)),
             ('C(0,1,2,2**62+1)', CubicBezier(0, 1.5, 2, 2 ** 62 + 1)), ('C(0,1,2,2**62)', CubicBezier(0, 1.5, 2, 2 ** 62)),
+            # the same arc with its rotation written a whole turn (or two) further: whether == calls them equal or not,
+            # equal ones must hash alike (also inside a Path)
+            ('A_rot30', Arc(0j, 2 + 1j, 30, 0, 1, 3 + 0j)), ('A_rot390', Arc(0j, 2 + 1j, 390, 0, 1, 3 + 0j)),
+            ('A_rot-330.0', Arc(0j, 2 + 1j, -330.0, 0, 1, 3 + 0j)), ('A_rot750', Arc(0j, 2 + 1j, 750, 0, 1, 3 + 0j)),
+            ('A_rot30_turned_360', Arc(0j, 2 + 1j, 30, 0, 1, 3 + 0j).rotated(360, origin=0j)),
+            ('A_rot0', Arc(0j, 2 + 1j, 0, 0, 1, 3 + 0j)), ('A_rot360', Arc(0j, 2 + 1j, 360, 0, 1, 3 + 0j)), ('A_rot-0.0', Arc(0j, 2 + 1j, -0.0, 0, 1, 3 + 0j)),
             # and numpy scalars of the same value
             ('Line(np0,np1)', Line(np.complex128(0), np.complex128(1))), ('Q(np)', QuadraticBezier(np.float64(0), np.float64(1), np.float64(2)))]
+    objs += [('Path(%s)' % n_, Path(Line(-1 + 0j, 0j), sg_)) for n_, sg_ in segs if n_.startswith('A_rot')]
     for group, kind in ((objs, 'Path'), (segs, 'segment')):
         for i in range(len(group)):
             for j in range(i + 1, len(group)):
